@@ -565,9 +565,25 @@ static void do_for(ctx *c) {
     c->ra = 1;
     const uint64_t *src = src64(c, v, n);
 
-    /* worst case of the documented layout: two tagged varints, a width byte
-     * and 8 bytes per offset */
-    dst = dst_alloc(c, 9 + 1 + 9 + n * 8 + 64, &dstraw);
+    /* destination: what the codec's own size function asks for this input
+     * (the layout of a FOR payload is not fixed by any property), never less
+     * than the layout of the pinned tree needs (two tagged varints, a width
+     * byte, 8 bytes per offset), plus slack; size bounds are C03's subject */
+    size_t forcap = 9 + 1 + 9 + n * 8;
+    {
+        varintFORMeta am;
+        memset(&am, 0, sizeof(am));
+        if (batch) {
+            varintFORBatchAnalyze(src, n, &am);
+        } else {
+            varintFORAnalyze(src, n, &am);
+        }
+        const size_t want = varintFORSize(&am);
+        if (want > forcap) {
+            forcap = want;
+        }
+    }
+    dst = dst_alloc(c, forcap + 64, &dstraw);
     varintFORMeta meta;
     memset(&meta, 0, sizeof(meta));
     if (mm == 2) {
@@ -580,7 +596,7 @@ static void do_for(ctx *c) {
     varintFORMeta *mp = mm == 1 ? NULL : &meta;
     size_t written = batch ? varintFORBatchEncode(dst, src, n, mp)
                            : varintFOREncode(dst, src, n, mp);
-    if (written == 0 || written > 9 + 1 + 9 + n * 8) {
+    if (written == 0 || written > forcap + 64) {
         FAIL("for.encode", "count",
              "for %s: encoder reported %zu bytes for %zu values [%s]", c->vname,
              written, n, c->a.desc);
@@ -880,7 +896,9 @@ static void do_pfor(ctx *c) {
         vf_class("rd.pfor.decode.meta0");
         CHECK_COUNT("pfor.decode", "varintPFORDecode(zeroed meta) return", got,
                     n);
-        CHECK_COUNT("pfor.decode", "meta.count after decode", dm.count, n);
+        /* what the decoder leaves in the caller's meta is not a documented
+         * output (the header documents the return value only), so it is not
+         * read back here */
         if (cmp64(c, "pfor.decode", "varintPFORDecode(zeroed meta)", out, v, n,
                   0)) {
             goto done;
@@ -970,9 +988,11 @@ static void do_group(ctx *c) {
     }
     c->ra = 1;
     const uint64_t *src = src64(c, v, n);
-    dst = dst_alloc(c, varintGroupSize(src, (uint8_t)n) + 64, &dstraw);
+    /* the codec's own size function plus slack (the bound itself is C03's) */
+    const size_t gcap = varintGroupSize(src, (uint8_t)n) + 64;
+    dst = dst_alloc(c, gcap, &dstraw);
     size_t written = varintGroupEncode(dst, src, (uint8_t)n);
-    if (written == 0 || written > 1 + 16 + 8 * n) {
+    if (written == 0 || written > gcap) {
         FAIL("group.encode", "count",
              "group: encoder reported %zu bytes for %zu fields [%s]", written,
              n, c->a.desc);
@@ -1135,8 +1155,29 @@ static void do_rle(ctx *c) {
             goto done;
         }
         CHECK_CANARY("rle.decodeWithHeader", out, n);
-        /* the runs follow the tagged count */
-        runs = enc + varintTaggedLen(n);
+        /* The run walker and varintRLEGetAt take a pointer to runs.  The
+         * header comment gives the layout [count:tagged][runs...]; no
+         * property fixes it and there is no accessor for the header length,
+         * so the walk below runs only when the bytes themselves show that
+         * layout: the payload is the tagged count followed by exactly what
+         * the headerless encoder produces for the same array. */
+        runs = NULL;
+        {
+            const size_t hl = varintTaggedLen(n);
+            uint8_t *praw = (uint8_t *)xmalloc(varintRLEMaxSize(n) + 64);
+            const size_t pl = varintRLEEncode(praw, src, n, NULL);
+            if (written >= hl && pl == written - hl && pl <= varintRLEMaxSize(n) &&
+                memcmp(enc + hl, praw, pl) == 0) {
+                runs = enc + hl;
+                vf_class("rle.header.runsAfterTaggedCount");
+            } else {
+                vf_class("rle.header.otherLayout");
+            }
+            free(praw);
+        }
+        if (!runs) {
+            goto done; /* nothing more to read through the API */
+        }
     } else {
         size_t got = varintRLEDecode(enc, out, n);
         vf_class("rd.rle.decode");
@@ -1215,8 +1256,11 @@ static void do_elias(ctx *c) {
     memset(&meta, 0, sizeof(meta));
     size_t written = delta ? varintEliasDeltaEncodeArray(dst, src, n, &meta)
                            : varintEliasGammaEncodeArray(dst, src, n, &meta);
-    if (written == 0 || written > cap || meta.totalBits > written * 8 ||
-        meta.totalBits + 7 < written * 8) {
+    /* the decoder is handed meta.totalBits: it must lie inside the bytes the
+     * encoder reported (whether the byte count is rounded up from the bit
+     * count or padded further is not this property's business) */
+    if (written == 0 || written > cap + 64 || meta.totalBits == 0 ||
+        meta.totalBits > written * 8) {
         FAIL("elias.encode", "count",
              "elias %s: encoder reported %zu bytes / %zu bits for %zu values "
              "[%s]",
@@ -1333,7 +1377,8 @@ static void do_bp128(ctx *c) {
             snprintf(b, sizeof(b), "bp128.block.blocks=%zu", nb);
             vf_class(b);
         }
-        dst = dst_alloc(c, nb * (1 + B * 4) + 64, &dstraw);
+        /* VARINT_BP128_MAX_BLOCK_BYTES is the header's own per-block bound */
+        dst = dst_alloc(c, nb * VARINT_BP128_MAX_BLOCK_BYTES + 64, &dstraw);
         size_t pos[BP_MAXBLK + 1];
         pos[0] = 0;
         for (size_t k = 0; k < nb; k++) {
@@ -1342,7 +1387,7 @@ static void do_bp128(ctx *c) {
                                                             in32 + k * B)
                                  : varintBP128DeltaEncodeBlock32(
                                        dst + pos[k], in32 + k * B, pk);
-            if (w == 0 || w > 1 + B * 4) {
+            if (w == 0 || w > VARINT_BP128_MAX_BLOCK_BYTES) {
                 FAIL("bp128.block.encode", "count",
                      "bp128 %s: block encoder reported %zu bytes for block "
                      "%zu [%s]",
